@@ -42,18 +42,58 @@ class Reducer:
         self._sig = None
 
     def _basis(self, free):
-        rels = [sp.expand(r) for r in self.alg.relations()] + self.extra
-        atoms = list(self.alg.atoms)[::-1] + list(self.alg.abs_atoms)[::-1]
-        for cs in self.alg.trig.values():
-            atoms += [cs[1], cs[0]]
+        # only the relations of atoms that occur (transitively) in the expression are needed
+        alg = self.alg
+        defs = {}
+        for a, r in alg.atoms.items():
+            defs[a] = (a ** 2 - r, sp.sympify(r).free_symbols)
+        for a, r in alg.abs_atoms.items():
+            defs[a] = (a ** 2 - r ** 2, sp.sympify(r).free_symbols)
+        for (c, s_) in alg.trig.values():
+            defs[c] = (c ** 2 + s_ ** 2 - 1, {s_})
+            defs[s_] = (c ** 2 + s_ ** 2 - 1, {c})
+        todo = [s for s in free if s in defs]
+        for e in self.extra:
+            todo += [s for s in e.free_symbols if s in defs]
+        seen = set()
+        while todo:
+            a = todo.pop()
+            if a in seen:
+                continue
+            seen.add(a)
+            todo += [s for s in defs[a][1] if s in defs]
+        raw = []
+        for a in list(alg.atoms) + list(alg.abs_atoms) + [x for cs in alg.trig.values() for x in cs]:
+            if a in seen:
+                e = sp.expand(defs[a][0])
+                if e not in raw:
+                    raw.append(e)
+        rels, monic = [], True
+        for r in raw:
+            nu, de = sp.fraction(sp.together(r))
+            if de.is_number:
+                rels.append(r)
+            else:
+                rels.append(sp.expand(nu))
+                monic = False
+        rels += self.extra
+        atoms = [a for a in list(alg.atoms)[::-1] + list(alg.abs_atoms)[::-1] if a in seen]
+        has_trig = False
+        for cs in alg.trig.values():
+            if cs[0] in seen or cs[1] in seen:
+                atoms += [cs[1], cs[0]]
+                has_trig = True
         gens = atoms + [g for g in self.extra_gens if g not in atoms]
-        gens += sorted([s for s in free if s not in gens], key=lambda s: s.name)
+        allfree = set(free)
+        for r in rels:
+            allfree |= r.free_symbols
+        gens += sorted([s for s in allfree if s not in gens], key=lambda s: s.name)
         sig = (tuple(rels), tuple(gens))
         if sig != self._sig:
             self._sig = sig
             if not rels:
                 self._gb = None
-            elif not self.extra and not self.alg.trig:
+            elif not self.extra and not has_trig and monic:
                 self._gb = ("plain", rels, gens)
             else:
                 G = sp.groebner(rels, *gens, order="lex")
@@ -67,8 +107,6 @@ class Reducer:
         if num == 0:
             return sp.Integer(0)
         free = set(num.free_symbols)
-        for r in list(self.alg.relations()) + self.extra:
-            free |= set(r.free_symbols)
         gb = self._basis(free)
         if gb is None:
             return num
